@@ -4,7 +4,7 @@ from __future__ import annotations
 import copy
 import itertools
 
-from .. import console, explorer, pubmodel, runner
+from .. import apiworld, console, explorer, pubmodel, runner
 from ..ref.at4 import ABSENT, KEEP
 from . import cmdcommon as cc
 
@@ -268,6 +268,59 @@ def run_history(job):
     return (None, None)
 
 
+def run_init_drop(job):
+    """The link drops during init(), at handshake step k (the console has received the k-th request and drops the
+    connection instead of answering; mode 'after': it answers and drops right after), and comes back at once.
+    Whatever the unified API does then - complete the handshake or give up after five seconds - it does on both
+    generations, with equal models."""
+    variant, k, mode = job
+    ainst = abstract_installation(variant)
+    astate = abstract_state(ainst)
+    p = Pair.__new__(Pair)
+    p.ainst, p.astate, p.w = ainst, astate, {}
+    results = {}
+    for gen in (4, 5):
+        inst = concrete(gen, ainst)
+        st = console.default_state(inst)
+        sync_state(gen, st, astate)
+        w = apiworld.ApiWorld(gen, inst, st, auto=True)
+        seen = [0]
+
+        def hook(kind, fr, answers, w=w, seen=seen):
+            if not kind.startswith("req-"):
+                return answers
+            seen[0] += 1
+            if seen[0] == k + 1:
+                live = w.net.live()
+                if live:
+                    live[-1].peer_eof()
+                return answers if mode == "after" else []
+            return answers
+        w.console.answer_hook = hook
+        w.start_init()
+        w.loop.run_until(6.0)
+        results[gen] = (w.init_result[-1][:2] if w.init_result else None, w.at.initialised)
+        p.w[gen] = w
+    label = f"variant {variant}: link dropped at handshake step {k} ({mode} the answer)"
+    if results[4] != results[5]:
+        return ("init-drop", f"{label}: AirTouch 4 client init() -> {results[4][0]}, initialised={results[4][1]}; "
+                             f"AirTouch 5 client init() -> {results[5][0]}, initialised={results[5][1]}")
+    # (the model of a client that is not initialised is unfinished business on either side: only judged once both are)
+    r = p.compare_views(label) if results[4][1] else None
+    if r:
+        return ("init-drop-view", r)
+    # later on both must be in the same state too (a handshake that was rescued late, or not at all)
+    for w in p.w.values():
+        w.loop.run_until(20.0)
+    late = {g: w.at.initialised for g, w in p.w.items()}
+    if late[4] != late[5]:
+        return ("init-drop", f"{label}: 20 s later initialised is {late[4]} on AirTouch 4 and {late[5]} on AirTouch 5")
+    r = p.compare_views(label + ", 20 s later") if late[4] else None
+    if r:
+        return ("init-drop-view", r)
+    return (None, None)
+
+
 def run_products(job):
     """Single-step cross products restricted to the common domain."""
     import datetime
@@ -332,6 +385,8 @@ def run_products(job):
 
 
 def replay_input(rp):
+    if rp.get("init_drop") is not None:
+        return run_init_drop(tuple(rp["init_drop"]))[1]
     if rp.get("seq") is not None:
         return run_history((rp["variant"], tuple(rp["seq"])))[1]
     return rp.get("message")
@@ -359,6 +414,12 @@ def run(tier, seed, part=None):
         chk.parts.append({"scenario": f"products/{what}", "steps": n})
         if sig:
             chk.violation(sig, msg, {"kind": "input", "module": "pvmc.props.c19", "message": msg})
+    djobs = [(v, k, mode) for v in (0, 1) for k in range(0, 6) for mode in ("instead-of", "after")]
+    for job, (sig, msg) in zip(djobs, explorer.pool().map(run_init_drop, djobs, chunksize=1)):
+        total += 1
+        if sig:
+            chk.violation(sig, msg, {"kind": "input", "module": "pvmc.props.c19", "init_drop": list(job), "message": msg})
+    chk.parts.append({"scenario": "init() with the link dropped at each handshake step", "runs": len(djobs)})
     chk.parts.append({"scenario": "joint histories", "depth": depth, "events": [e[0] for e in ev], "sequences": len(jobs)})
     chk.samples.append({"history": [ev[i][0] for i in seqs[len(seqs) // 2]]})
     chk.counters["states"] = len(jobs)
